@@ -68,8 +68,13 @@ class Molecule(BigSMILESbase):
                         other_bd = self._elements[-1].bond_descriptors[-1]
                     if len(pre_stochastic.bond_descriptors) > 0:
                         found_compatible = False
-                        for bd in pre_stochastic.bond_descriptors[0]:
-                            if bd.is_compatible(other_bd):
+                        for bd in pre_stochastic.bond_descriptors:
+                            # A connector continues with the descriptor the previous element hands over,
+                            # the same one that is inserted below when none is written.
+                            if (
+                                bd.descriptor == other_bd.descriptor
+                                and bd.descriptor_id == other_bd.descriptor_id
+                            ):
                                 found_compatible = True
                         if not found_compatible:
                             raise RuntimeError(
